@@ -1,6 +1,7 @@
 import Rtcm.Lemmas.Chunk
 import Rtcm.Lemmas.ChunkTerm
 import Rtcm.Lemmas.ChunkSock
+import Rtcm.Lemmas.ChunkSockTerm
 /-
   C12 — chunked transfer decoding is independent of segmentation.
   `dec` is the per-chunk transform (identity, gzip, zlib or raw deflate — the theorem holds for
@@ -90,6 +91,26 @@ theorem C12_reader_over_chunked (dec : Bytes → Bytes) (cs : List (Bytes × Byt
     frames (run (sockOps dec) T o resume (Sock.init dec sched true bufsize))
       = frames (run fileOps T o resume ⟨decAll dec cs, []⟩) :=
   reader_exact_eq_file (exact_chunked dec cs hok) T o resume _ _ (cstate_init hok sched bufsize hff hb hbody)
+
+/-- … and the same when the body is followed by the terminating zero chunk `z CRLF CRLF`, for every
+    segmentation including cuts inside the terminator: the reads return the decoded chunk bodies
+    and nothing of the terminator is ever delivered. -/
+theorem C12_reads_deliver_decoded_with_terminator (dec : Bytes → Bytes) (cs : List (Bytes × Bytes))
+    (hok : ∀ hc ∈ cs, ChunkOK hc) (z : Bytes) (hz : SizeLine z 0)
+    (sched : List Recv) (bufsize : Nat) (hff : FaultFree sched) (hb : 0 < bufsize)
+    (hbody : pendingData sched = body cs ++ z ++ CRLF ++ CRLF) (ns : List Nat) :
+    Sock.reads dec (Sock.init dec sched true bufsize) ns = specReads (decAll dec cs) ns :=
+  reads_exact (exact_of_inv (recvInvT dec cs hok z hz)) ns _ _
+    (cstateT_init hok hz sched bufsize hff hb (by simpa [termBytes, List.append_assoc] using hbody))
+
+theorem C12_reader_over_chunked_with_terminator (dec : Bytes → Bytes) (cs : List (Bytes × Bytes))
+    (hok : ∀ hc ∈ cs, ChunkOK hc) (z : Bytes) (hz : SizeLine z 0)
+    (sched : List Recv) (bufsize : Nat) (hff : FaultFree sched) (hb : 0 < bufsize)
+    (hbody : pendingData sched = body cs ++ z ++ CRLF ++ CRLF) (T : Tables) (o : Opts) (resume : Bool) :
+    frames (run (sockOps dec) T o resume (Sock.init dec sched true bufsize))
+      = frames (run fileOps T o resume ⟨decAll dec cs, []⟩) :=
+  reader_exact_eq_file (exact_of_inv (recvInvT dec cs hok z hz)) T o resume _ _
+    (cstateT_init hok hz sched bufsize hff hb (by simpa [termBytes, List.append_assoc] using hbody))
 
 example : SizeLine [48] 0 := ⟨by decide, by decide⟩                       -- "0"
 example : SizeLine [48, 48, 48] 0 := ⟨by decide, by decide⟩               -- "000"
